@@ -171,14 +171,87 @@ def run(ctx):
 
 
 # ----------------------------------------------------------------------------------------------------
+PRED = {"ObsMutexInSync": "MutexInSync", "ObsNoAbort": "NoAbort", "ObsResultsNotOverwritten": "ResultsNotOverwritten",
+        "ObsWellFormed": "JobListComplete"}
+
+
+class Judge:
+    """What decides the verdict (DESIGN.md 12.2): the property predicates of JobFile.tla evaluated by TLC on the states
+    OBSERVED from the real code (spec/jobfile/ObsJobFile.tla) plus the coordinator's own hard observations.  A conformance
+    failure (replay not followable, trace rejected, graph differs) whose observed states satisfy every predicate is
+    reported as SPEC-DRIFT, not as a violation."""
+
+    def __init__(self, ctx):
+        self.ctx = ctx
+        self.drift = []
+        self.seq = 0
+        self.nobs = 0
+
+    def note_drift(self, kind, meta, text):
+        if len(self.drift) < 20:
+            self.drift.append({"kind": kind, "cfg": meta.get("cfg"), "np": meta.get("np"), "nt": meta.get("nt"), "what": text[:400]})
+        self.ctx.extra["spec_drift"] = self.drift
+        vlib.log("SPEC-DRIFT (%s, not a property violation): %s" % (kind, text[:300]))
+
+    def hard(self, res, meta):
+        """observations of the coordinator that need no spec: two lock holders, both files unparseable after a crash,
+        a dead worker, nobody schedulable; keys are predicate names"""
+        for key, text in res["issues"]:
+            self.ctx.violation(key, text, dict(meta, schedule=[[x["p"], x["t"], x["k"]] for x in res["trace"] if x["e"] == "step"]))
+
+    @staticmethod
+    def states_of(trace, meta):
+        return [{"c": meta["cfg"], "np": meta["np"], "nt": meta["nt"], "s": x["s"], "h": x["h"], "meta": meta}
+                for x in trace if x["e"] in ("begin", "step")]
+
+    def obs_check(self, records, where):
+        """records: [{c, np, nt, s, h, meta}].  True iff every property predicate holds in every observed state."""
+        ok = True
+        groups = {}
+        for r in records:
+            groups.setdefault((r["np"], r["nt"]), []).append(r)
+        for (np_, nt), recs in sorted(groups.items()):
+            for _ in range(8):          # report up to a few distinct violated predicates
+                if not recs:
+                    break
+                self.seq += 1
+                path = vlib.scratch_file("jf-obs-%d.ndjson" % self.seq)
+                vlib.write_ndjson(path, [{"c": r["c"], "s": r["s"], "h": r["h"]} for r in recs])
+                r = vlib.tlc("jobfile", "ObsJobFile", cfg="ObsJobFile_%d_%d.cfg" % (np_, nt), workers=1, env={"TRACE": path},
+                             timeout=1800, heap="4g")
+                os.unlink(path)
+                if r.ok:
+                    if r.distinct != len(recs):
+                        raise vlib.InfraError("ObsJobFile: %d states for %d records" % (r.distinct, len(recs)))
+                    self.ctx.add_tlc("ObsJobFile_%d_%d(%s)" % (np_, nt, where), r)
+                    self.nobs += len(recs)
+                    break
+                ok = False
+                m = re.search(r"Invariant (\w+) is violated", r.out)
+                inv = m.group(1) if m else "property"
+                m = re.search(r"\bidx = (\d+)", r.out)
+                bad = recs[int(m.group(1)) - 1] if m else recs[0]
+                key = PRED.get(inv, inv)
+                s_ = bad["s"]
+                self.ctx.violation(key, "%s is false in a state reached by the real code (%s): pcs %s, lock holders %s, job file %s, "
+                                   "backup %s, EvalJob log %s" % (key, where, s_["pc"], s_["lock"],
+                                                                  canon(s_["file"])[:300], canon(s_["backup"])[:300], s_["execLog"]),
+                                   dict(bad["meta"], state=s_, observed=bad["h"]))
+                # drop the states of executions of that configuration in which this predicate is false (cheap approximation:
+                # all records of the same execution), then look for other predicates / executions
+                recs = [x for x in recs if x["meta"] is not bad["meta"]]
+        return ok
+
+
 def validate_traces(ctx, runs, np_, nt, lockmode, label):
-    """runs: list of dict(trace=[records], meta=...).  TLC must accept every recorded execution."""
+    """runs: list of dict(trace=[records], meta=...).  Returns the runs of every chunk TLC does not accept as behaviours
+    of the protocol spec, with a description of the first rejected step: [(run, text)]."""
     chunk = 40
 
     def check(i):
         part = runs[i:i + chunk]
         path = vlib.scratch_file("jf-trace-%s-%d.ndjson" % (label, i))
-        recs = [r for run in part for r in run["trace"]]
+        recs = [{k: v for k, v in r.items() if k != "h"} for run in part for r in run["trace"]]
         vlib.write_ndjson(path, recs)
         nlines = len(recs)
 
@@ -194,11 +267,12 @@ def validate_traces(ctx, runs, np_, nt, lockmode, label):
         r, maxl = validate()
         r2 = maxl2 = None
         if r.violation or maxl is None or maxl != nlines + 1:
-            r2, maxl2 = validate()       # report only a repeated rejection
+            r2, maxl2 = validate()       # only a repeated rejection counts
         os.unlink(path)
         return i, part, nlines, r, r2, maxl2
     with cf.ThreadPoolExecutor(max_workers=5) as ex:
         results = list(ex.map(check, range(0, len(runs), chunk)))
+    rejected = []
     for i, part, nlines, r, r2, maxl2 in results:
         ctx.add_tlc("TraceJobFile[%s %d..%d]" % (label, i, i + len(part)), r)
         if r2 is not None and (r2.violation or maxl2 != nlines + 1):
@@ -219,29 +293,17 @@ def validate_traces(ctx, runs, np_, nt, lockmode, label):
                 at = "crash" if rec["k"] == 1 else prev["pc"][rec["p"] - 1][rec["t"]]
             elif rec["e"] == "begin":
                 at = "initial-state"
-            if r2.violation and "Invariant" in r2.violation:
-                m = re.search(r"Invariant (\w+)", r2.violation)
-                key = "trace:invariant:%s" % (m.group(1) if m else "?")
-                what = "a recorded execution of the real code violates %s" % r2.violation
-            else:
-                key = "trace:rejected:%s" % at
-                what = ("a recorded execution of the real code is not a behaviour of the spec: the step of thread (%s,%s) "
-                        "parked at '%s' (record %d of the run) leads to a state the spec does not allow" % (
-                            rec.get("p"), rec.get("t"), at, off))
-            keep = os.path.join(vlib.VERIF, "replays", "C10-rejected-trace-%s.ndjson" % re.sub(r"[^A-Za-z0-9]", "_", key))
-            os.makedirs(os.path.dirname(keep), exist_ok=True)
-            vlib.write_ndjson(keep, bad["trace"])
-            ctx.violation(key, what, dict(bad["meta"], schedule=[[x["p"], x["t"], x["k"]] for x in bad["trace"] if x["e"] == "step"],
-                                          trace=keep, lockmode=lockmode))
-
-
-def report_issues(ctx, res, meta):
-    for key, text in res["issues"]:
-        ctx.violation(key, text, dict(meta, schedule=[[x["p"], x["t"], x["k"]] for x in res["trace"] if x["e"] == "step"]))
+            text = ("%s: the step of thread (%s,%s) parked at '%s' (record %d of an execution with configuration %s) leads to a "
+                    "state the protocol spec does not allow" % (r2.violation or "trace rejected", rec.get("p"), rec.get("t"), at, off,
+                                                                canon(bad["meta"]["cfg"])[:200]))
+            # TLC stops at the first rejected step: nothing after it in this chunk has been judged
+            rejected += [(run, text) for run in part]
+    return rejected
 
 
 def _run(ctx, exe, pool, quick, rnd):
     T0 = ctx.t0
+    judge = Judge(ctx)
 
     # ---- 1. design level: exhaustive TLC, LockMode = "exclusive" (what the code asks for) ----------------------
     if quick:
@@ -290,19 +352,13 @@ def _run(ctx, exe, pool, quick, rnd):
         demo.append({"kind": kind, "len": len(r["sched"]), "outcome": out["outcome"][:60], "reproduced": real_bad[kind]})
         if out["outcome"].startswith("blocked") and not out["overlap"]:
             continue             # the real lock excludes the second process: the counterexample is not realisable
-        meta = {"cfg": r["c"], "np": 2, "nt": 1, "schedule": r["sched"], "lockmode": "sharable"}
-        if out["overlap"]:
-            # (with two writers inside the section the real files can be even worse than the model's: a shorter list
-            # written over a longer one leaves trailing garbage, so the end state need not equal the model's)
-            what = {"files": "job file and backup are both unparseable at the same time",
-                    "exec": "a job is executed by two processes"}[kind] if real_bad[kind] else \
-                "two processes are inside load-merge-assign-write together"
-            ctx.violation("lock:sharable-counterexample-realizable:" + kind,
-                          "the file lock does not exclude other processes: TLC's counterexample schedule for a non-excluding "
-                          "(sharable) lock runs on the real code - %s" % what, meta)
-        else:
-            ctx.violation("lock:sharable-counterexample-diverges",
-                          "replay of a sharable-lock counterexample neither blocks nor lets two processes in: %s" % out["outcome"], meta)
+        # the schedule went on: the property predicates on the observed states decide (with two writers inside the section
+        # the real files can be even worse than the model's: a shorter list written over a longer one leaves trailing garbage)
+        meta = {"cfg": r["c"], "np": 2, "nt": 1, "schedule": r["sched"], "lockmode": "sharable",
+                "origin": "TLC counterexample (%s) for a non-excluding (sharable) file lock imposed on the real code" % kind}
+        judge.hard(out, meta)
+        if judge.obs_check(Judge.states_of(out["trace"], meta), "replay of TLC's sharable-lock counterexample"):
+            judge.note_drift("sharable-counterexample", meta, "the schedule neither blocks nor breaks a predicate: %s" % out["outcome"])
     ctx.extra["sharable_demo"] = demo
     ctx.sample({"sharable_counterexample": {"cfg": pick[0][1]["c"], "sched": pick[0][1]["sched"], "on_real_code": outs[0]["outcome"]}})
     vlib.log("phase 2 (sharable counterexample on the real code) done %.0fs" % (time.time() - T0))
@@ -338,18 +394,23 @@ def _run(ctx, exe, pool, quick, rnd):
         ctx.traces += 1
         ctx.nontriv(("replay", np_, nt, canon(r["c"]), canon(r["sched"])))
         meta = {"cfg": r["c"], "np": np_, "nt": nt, "schedule": r["sched"], "lockmode": "exclusive"}
-        report_issues(ctx, out, meta)
+        judge.hard(out, meta)
+        why = None
         if out["outcome"] != "ok":
-            key = "replay:blocked" if out["outcome"].startswith("blocked") else "replay:step-not-enabled"
-            ctx.violation(key, "the spec allows a step the real code cannot take: %s" % out["outcome"], meta)
-            continue
-        if canon(out["final"]) != canon(norm_proj(r["fin"])):
-            ctx.violation("replay:final-state", "after replaying a TLC behaviour the real state %s differs from the spec's %s" % (
-                canon(out["final"])[:600], canon(norm_proj(r["fin"]))[:600]), meta)
+            why = "the real code does not follow a TLC behaviour: %s" % out["outcome"]
+        elif canon(out["final"]) != canon(norm_proj(r["fin"])):
+            why = "after replaying a TLC behaviour the real state %s differs from the spec's %s" % (
+                canon(out["final"])[:300], canon(norm_proj(r["fin"]))[:300])
+        if why:
+            if judge.obs_check(Judge.states_of(out["trace"], meta), "replay of a TLC behaviour"):
+                judge.note_drift("replay", meta, why)
             continue
         by.setdefault((np_, nt), []).append({"trace": out["trace"], "meta": meta})
     for (np_, nt), runs in sorted(by.items()):
-        validate_traces(ctx, runs, np_, nt, "exclusive", "replay%d%d" % (np_, nt))
+        rej = validate_traces(ctx, runs, np_, nt, "exclusive", "replay%d%d" % (np_, nt))
+        if rej and judge.obs_check([x for run, _ in rej for x in Judge.states_of(run["trace"], run["meta"])],
+                                   "replayed TLC behaviour rejected by the protocol spec"):
+            judge.note_drift("trace-rejected", rej[0][0]["meta"], rej[0][1])
     if sims:
         ctx.sample({"tlc_schedule": {"cfg": sims[0][2]["c"], "np": sims[0][0], "sched_len": len(sims[0][2]["sched"]),
                                      "crashes": sum(1 for x in sims[0][2]["sched"] if x[2] == 1)}})
@@ -375,14 +436,17 @@ def _run(ctx, exe, pool, quick, rnd):
         ctx.nontriv(("random", np_, nt, canon(cfg), canon(sched)))
         ncrash += sum(1 for x in sched if x[2] == 1)
         nprobe += out["blocked"]
-        meta = {"cfg": cfg, "np": np_, "nt": nt, "seed": seed, "lockmode": "exclusive"}
-        report_issues(ctx, out, meta)
+        meta = {"cfg": cfg, "np": np_, "nt": nt, "seed": seed, "lockmode": "exclusive", "schedule": sched}
+        judge.hard(out, meta)
         fin = out["final"]
         if fin["crashes"] == 0 and any("aborted" in pcs for pcs in fin["pc"]):
-            ctx.violation("sync:abort-without-crash", "a process gave up on an unparseable job file although nobody crashed", dict(meta, schedule=sched))
+            ctx.violation("NoAbort", "a process gave up on an unparseable job file although nobody crashed", meta)
         by.setdefault((np_, nt), []).append({"trace": out["trace"], "meta": meta})
     for (np_, nt), runs in sorted(by.items()):
-        validate_traces(ctx, runs, np_, nt, "exclusive", "random%d%d" % (np_, nt))
+        rej = validate_traces(ctx, runs, np_, nt, "exclusive", "random%d%d" % (np_, nt))
+        if rej and judge.obs_check([x for run, _ in rej for x in Judge.states_of(run["trace"], run["meta"])],
+                                   "random schedule rejected by the protocol spec"):
+            judge.note_drift("trace-rejected", rej[0][0]["meta"], rej[0][1])
     ctx.extra["random_runs"] = {"runs": nrand, "crashes": ncrash, "lock_requests_observed_blocked_in_fcntl": nprobe}
     ctx.sample({"validated_run": {"cfg": items[0][2], "np": items[0][0], "nt": items[0][1],
                                   "steps": len(outs[0]["trace"]) - 2}})
@@ -402,19 +466,23 @@ def _run(ctx, exe, pool, quick, rnd):
         g = explore_parallel(exe, pool, cfgs[k], 2, 1)
         ctx.traces += g["runs"]
         ctx.nontriv(("graph", k))
-        meta = {"cfg": cfgs[k], "np": 2, "nt": 1, "lockmode": "exclusive"}
+        meta = {"cfg": cfgs[k], "np": 2, "nt": 1, "lockmode": "exclusive", "origin": "exhaustive schedule enumeration of the real code"}
         for key, text in g["issues"]:
             ctx.violation(key, text, meta)
+        # exhaustiveness over the real code's schedules decides the property also when code and spec have drifted apart:
+        # every state the real code reached goes through the property predicates
+        judge.obs_check([{"c": cfgs[k], "np": 2, "nt": 1, "s": o["s"], "h": o["h"], "meta": meta} for o in g["obs"]],
+                        "exhaustive schedule enumeration of the real code")
         extra = g["edges"] - spec_edges[k]
         missing = spec_edges[k] - g["edges"]
         if extra:
             fr, to = sorted(extra)[0]
-            ctx.violation("graph:extra-transition", "the real code takes %d transitions the spec forbids, e.g. %s -> %s" % (
-                len(extra), fr[:500], to[:500]), dict(meta, frm=json.loads(fr), to=json.loads(to)))
+            judge.note_drift("graph-extra-transition", meta, "the real code takes %d transitions the spec does not have, e.g. %s -> %s" % (
+                len(extra), fr[:300], to[:300]))
         elif missing:
             fr, to = sorted(missing)[0]
-            ctx.violation("graph:missing-transition", "the real code never takes %d transitions the spec allows, e.g. %s -> %s" % (
-                len(missing), fr[:500], to[:500]), dict(meta, frm=json.loads(fr), to=json.loads(to)))
+            judge.note_drift("graph-missing-transition", meta, "the real code never takes %d transitions the spec allows, e.g. %s -> %s" % (
+                len(missing), fr[:300], to[:300]))
         ctx.extra.setdefault("graphs_compared", []).append({"cfg": cfgs[k], "edges": len(g["edges"]), "states": len(g["states"]),
                                                             "runs": g["runs"]})
     vlib.log("phase 5 (state graph) done %.0fs" % (time.time() - T0))
@@ -438,7 +506,7 @@ def _run(ctx, exe, pool, quick, rnd):
         ctx.nontriv(("free", np_, canon(cfg), seed))
         meta = {"cfg": cfg, "np": np_, "nt": 2, "seed": seed, "mode": "free"}
         if out["bad"]:
-            ctx.violation("free:abort", "free-running processes: %s" % out["bad"], meta)
+            ctx.violation("NoAbort", "free-running processes, nobody crashed: %s" % out["bad"], meta)
             continue
         by.setdefault(np_, []).append((out["rec"], meta))
     for np_, lst in sorted(by.items()):
@@ -450,7 +518,7 @@ def _run(ctx, exe, pool, quick, rnd):
             m = re.search(r"/\\ i = (\d+)", r.out)
             idx = int(m.group(1)) - 1 if m else 0
             inv = re.search(r"Invariant (\w+)", r.violation)
-            ctx.violation("free:final-state:%s" % (inv.group(1) if inv else "?"),
+            ctx.violation(inv.group(1) if inv else "NoLostJob",
                           "end state of a free-running execution violates %s: %s" % (r.violation, canon(lst[idx][0])[:800]),
                           dict(lst[idx][1], record=lst[idx][0]))
         elif r.distinct != len(lst):
@@ -458,6 +526,7 @@ def _run(ctx, exe, pool, quick, rnd):
         os.unlink(path)
     ctx.extra["free_runs"] = nfree
     ctx.extra["infrastructure_retries"] = pool.retries
+    ctx.extra["observed_states_judged_by_predicates"] = judge.nobs
     vlib.log("phase 6 (%d free-running executions) done %.0fs" % (nfree, time.time() - T0))
 
     for f in tlc_futs:
@@ -474,7 +543,13 @@ def explore_parallel(exe, pool, cfg, np_, nt):
     """exhaustive enumeration of the real code's schedules (see c10_coord.explore), work shared by the pool's threads"""
     import threading
     visited, edges, issues = set(), set(), []
+    obs = {}
     lockobj = threading.Lock()
+
+    def see(co):
+        r = co.trace[-1]
+        with lockobj:
+            obs.setdefault(canon([r["s"], r["h"]]), {"s": r["s"], "h": r["h"]})
     work = [[]]
     runs = [0]
 
@@ -483,12 +558,14 @@ def explore_parallel(exe, pool, cfg, np_, nt):
         co = cc.Coordinator(exe, loader, cfg, np_, nt, "exclusive", base=base)
         try:
             cur = canon(co.trace[0]["s"])
+            see(co)
             with lockobj:
                 fresh = (not prefix) and cur not in visited
                 if fresh:
                     visited.add(cur)
             for i, (p, t) in enumerate(prefix):
                 co.step(p, t)
+                see(co)
                 nxt = canon(co.trace[-1]["s"])
                 if i == len(prefix) - 1:
                     with lockobj:
@@ -507,6 +584,7 @@ def explore_parallel(exe, pool, cfg, np_, nt):
                     new_work.append(sched + [o])
                 p, t = opts[0]
                 co.step(p, t)
+                see(co)
                 sched.append((p, t))
                 nxt = canon(co.trace[-1]["s"])
                 with lockobj:
@@ -526,7 +604,7 @@ def explore_parallel(exe, pool, cfg, np_, nt):
             raise vlib.InfraError("explore: too many runs")
         for nw in pool.map(expand, batch):
             work.extend(nw)
-    return {"edges": edges, "states": visited, "runs": runs[0], "issues": issues}
+    return {"edges": edges, "states": visited, "runs": runs[0], "issues": issues, "obs": list(obs.values())}
 
 
 def free_run(exe, loader, base, np_, cfg, seed):
@@ -586,13 +664,16 @@ def replay_artifact(ctx, exe, pool):
     art = json.load(open(ctx.replay))
     rp = art.get("replay", art)
     loader = pool.loaders[0]
+    judge = Judge(ctx)
     if rp.get("mode") == "free":
         out = free_run(exe, loader, pool.base, rp["np"], rp["cfg"], rp["seed"])
         print(json.dumps(out, indent=1))
         if out["bad"]:
-            ctx.violation("free:abort", out["bad"], rp)
+            ctx.violation("NoAbort", out["bad"], rp)
         return
     mode = rp.get("lockmode", "exclusive")
+    if "schedule" not in rp:
+        raise vlib.InfraError("replay artefact has no schedule")
     out = cc.run_script(exe, loader, rp["cfg"], rp["np"], rp["nt"], rp["schedule"], lockmode=mode, base=pool.base)
     for x in out["trace"]:
         if x["e"] == "step":
@@ -601,12 +682,11 @@ def replay_artifact(ctx, exe, pool):
                   "backup", "ok" if s["backup"]["ok"] else "PARTIAL", "exec", s["execLog"])
     print("outcome:", out["outcome"], "issues:", out["issues"])
     ctx.traces += 1
-    report_issues(ctx, out, rp)
-    fin = out["final"]
-    if out["outcome"] == "ok" and mode == "sharable":
-        if not fin["file"]["ok"] and not fin["backup"]["ok"]:
-            ctx.violation("lock:sharable-counterexample-realizable:files", "job file and backup both unparseable", rp)
-        if any(sum(1 for e in fin["execLog"] if e[1] == j) > 1 for j in range(1, len(rp["cfg"]["init"]) + 1)):
-            ctx.violation("lock:sharable-counterexample-realizable:exec", "a job is executed twice", rp)
-    if out["outcome"] == "ok":
-        validate_traces(ctx, [{"trace": out["trace"], "meta": rp}], rp["np"], rp["nt"], mode, "replay")
+    meta = {"cfg": rp["cfg"], "np": rp["np"], "nt": rp["nt"], "schedule": rp["schedule"], "lockmode": mode}
+    judge.hard(out, meta)
+    ok = judge.obs_check(Judge.states_of(out["trace"], meta), "replay of a recorded schedule")
+    print("property predicates on the observed states:", "all hold" if ok else "VIOLATED")
+    if ok and out["outcome"] == "ok":
+        rej = validate_traces(ctx, [{"trace": out["trace"], "meta": meta}], rp["np"], rp["nt"], mode, "replay")
+        if rej:
+            judge.note_drift("trace-rejected", meta, rej[0][1])
